@@ -76,7 +76,7 @@ package document
 // addContentType registers the override of a part once: an existing override for the part is kept (nothing changes),
 // otherwise exactly one (part, type) is appended; earlier overrides stay.
 //@ func (*Document).addContentType
-//@ props C11
+//@ props C11, C01
 //@ requires d != nil && d.contentTypes != nil
 //@ ensures d.contentTypes == old(d.contentTypes)
 //@ ensures old(ctHas(d.contentTypes.Overrides, "/" + partName)) ==> unchangedHeap()
